@@ -130,6 +130,7 @@ pub fn profile(which: Which) -> Profile {
             pf.kinds[6] = 4;
             pf.kinds[7] = 2;
             pf.kinds[8] = 1;
+            pf.sat_pct = 30;
             pf
         }
         Which::Interning => {
